@@ -11,7 +11,7 @@ from extractlib import *
 
 IMPL = re.compile(r'impl\s+(?:std::)?(?:fmt::)?(Display|Debug)\s+for\s+(\w+)')
 RISKY = re.compile(r'\w\s*\[|\.unwrap\(\)|\.expect\(|unreachable!|panic!|todo!|unimplemented!|assert|'
-                   r'[\w\)]\s*[-*/%]\s*[\w\(]|\bas\s+[ui](8|16|32|64|size)\b|<<|>>|\.pow\(|\.abs\(\)')
+                   r'[\w\)]\s*[-+*/%]\s*[\w\(]|[-+*/%]=|\bas\s+[ui](8|16|32|64|size)\b|<<|>>|\.pow\(|\.abs\(\)')
 
 
 def strip(src):
